@@ -25,6 +25,13 @@ func genRealtime(g *gen, prop string, budget int, emit func(string)) bool {
 			"rrt 5 4 10 0 : busy@5:50:1 ; busy@15:2:1",
 			"rrt 2 4 30 0 : busy@3:50:1 ; busy@13:0:1",
 			"rrt 10 3 8 0 : busy@12:500:9 ; busy@30:5:9",
+			// indications a few milliseconds apart, the later one announcing MORE: each one counts
+			"rrt 5 3 10 0 : busy@5:5:1 ; busy@8:50:1",
+			"rrt 2 4 20 0 : busy@3:2:1 ; busy@6:50:1 ; busy@9:50:1",
+			// the same on an IDLE client (sixth field: the senders start after that many ms)
+			"rrt 5 3 6 0 12 : busy@1:5:1 ; busy@4:50:1",
+			"rrt 10 2 5 0 30 : busy@2:50:0 ; busy@9:50:3 ; busy@14:20:3",
+			"rrt 5 4 5 0 20 : busy@10:50:1",
 		}
 		n := 0
 		for _, s := range fixed {
@@ -57,6 +64,18 @@ func genRealtime(g *gen, prop string, budget int, emit func(string)) bool {
 				bs = append(bs, fmt.Sprintf("busy@%d:%d:%d", at, g.pick(0, 2, 5, 20), ctrl))
 				g.stats["rrt.busy-overlap-shorter"]++
 			}
+			if pause > 0 && g.r.Intn(4) == 0 {
+				// a storm: indications 1..8 ms apart with growing wait times
+				at += g.r.Intn(span/3 + 3)
+				ctrl := 1 + g.r.Intn(65535)
+				w := g.pick(0, 2, 5)
+				for k := 2 + g.r.Intn(3); k > 0; k-- {
+					bs = append(bs, fmt.Sprintf("busy@%d:%d:%d", at, w, ctrl))
+					at += 1 + g.r.Intn(8)
+					w = g.pick(20, 50, 100)
+				}
+				g.stats["rrt.busy-storm-growing"]++
+			}
 			for k := g.pick(0, 1, 1, 2, 3, 4); k > 0; k-- {
 				at += g.r.Intn(span/2 + 3)
 				if g.r.Intn(3) == 0 {
@@ -77,6 +96,12 @@ func genRealtime(g *gen, prop string, budget int, emit func(string)) bool {
 			}
 			g.stats[fmt.Sprintf("rrt.pause%d", pause)]++
 			g.stats[fmt.Sprintf("rrt.senders%d", senders)]++
+			if pause > 0 && g.r.Intn(5) == 0 {
+				// senders start late: the indications find the client idle
+				g.stats["rrt.idle-start"]++
+				emit(fmt.Sprintf("rrt %d %d %d %d %d : %s", pause, senders, burst, gap, g.pick(5, 15, 40), strings.Join(bs, " ; ")))
+				continue
+			}
 			emit(fmt.Sprintf("rrt %d %d %d %d : %s", pause, senders, burst, gap, strings.Join(bs, " ; ")))
 		}
 	case "C17rt":
